@@ -1214,7 +1214,10 @@ std::ostream& expression_t::print(std::ostream& os, bool old) const
     case MIN:
     case MAX:
     case FRACTION:
-        embrace_strict(os, old, get(0), precedence);
+        if (precedence == get_precedence(ASSIGN))  // right associative, and binds weaker than ?: on its left
+            embrace(os, old, get(0), get_precedence(INLINE_IF));
+        else
+            embrace_strict(os, old, get(0), precedence);
         switch (data->kind) {
         case FRACTION: os << " : "; break;
         case PLUS: os << " + "; break;
